@@ -44,6 +44,7 @@ type c13err struct{ w string }
 func (e c13err) Error() string { return "custom failure on " + e.w }
 
 type c13world struct {
+	stdLeak  string // what reached the process's own stdout / stderr during the execution (no logger of the scenario writes there)
 	nfail    int
 	attempts []c13attempt
 	call     int
@@ -105,7 +106,7 @@ type c13case struct {
 	Bound   int   `json:"bound"`
 }
 
-var c13configs = []string{"1 normal + 1 error writer", "2 normal + 2 error writers", "2+2 and a per-level writer for Info", "one writer in both the normal and the error list (+1 each)", "4 normal + 4 error writers", "a logger without writers of its own: the package-level default writer set (1 normal + 1 error writer)"}
+var c13configs = []string{"1 normal + 1 error writer", "2 normal + 2 error writers", "2+2 and a per-level writer for Info", "one writer in both the normal and the error list (+1 each)", "4 normal + 4 error writers", "a logger without writers of its own: the package-level default writer set (1 normal + 1 error writer)", "1 normal + 1 error writer, and in both lists a library file writer (NewFileWriter) that was closed: it fails every Write"}
 
 var c13classes = []struct {
 	name string
@@ -115,10 +116,11 @@ var c13classes = []struct {
 }
 
 type c13setup struct {
-	l       *slog.Entry
-	normal  []string
-	errw    []string
-	leveled map[slog.Level][]string
+	closedFile bool // an always-failing closed file writer is a member of the normal and of the error list
+	l          *slog.Entry
+	normal     []string
+	errw       []string
+	leveled    map[slog.Level][]string
 }
 
 func c13build(w *c13world, config int, level slog.Level) *c13setup {
@@ -155,6 +157,18 @@ func c13build(w *c13world, config int, level slog.Level) *c13setup {
 		} else {
 			l.SetWriter(mk("n1")).SetErrorWriter(mk("e1")) // the default set is not reachable this way: same as configuration 0
 			st.normal, st.errw = []string{"n1"}, []string{"e1"}
+		}
+	case 6:
+		l.SetWriter(mk("n1")).SetErrorWriter(mk("e1"))
+		st.normal, st.errw = []string{"n1"}, []string{"e1"}
+		if f, err := os.CreateTemp("", "verif-c13-closed-*"); err == nil {
+			name := f.Name()
+			f.Close()
+			fw := slog.NewFileWriter(name)
+			_ = fw.Close()
+			os.Remove(name)
+			l.AddWriter(fw).AddErrorWriter(fw)
+			st.closedFile = true
 		}
 	case 3:
 		sh := mk("shared")
@@ -203,6 +217,9 @@ func c13check(cas c13case, w *c13world, st *c13setup, x *sched.Execution, level 
 	if x.Panics[0] != "" {
 		return "call-returns", "a logging call panicked: " + firstLine(x.Panics[0])
 	}
+	if w.stdLeak != "" {
+		return "diagnostic-destination", fmt.Sprintf("something was written to the process's own stdout/stderr, where no logger of the scenario writes: %.300q", w.stdLeak)
+	}
 	customs := map[slog.Level]slog.Level{c13Swell: slog.ErrorLevel}
 	warnAdmitted, _ := refAdmit(level, slog.WarnLevel, false, customs)
 	warnSel := st.selected(slog.WarnLevel)
@@ -238,6 +255,9 @@ func c13check(cas c13case, w *c13world, st *c13setup, x *sched.Execution, level 
 			default:
 				return "only-own-or-diagnostic", fmt.Sprintf("call %d: destination %s received a payload that is neither the call's record nor the diagnostic", ci, a.W)
 			}
+		}
+		if st.closedFile && admitted {
+			anyFailed = true // the closed file writer is selected for every record and fails
 		}
 		what := "call"
 		if probe {
@@ -329,7 +349,14 @@ func c13runOne(cas c13case, prefix []int) (*sched.Execution, *c13world, *c13setu
 	}
 	vsync.NoPoolChoice = true
 	defer func() { vsync.NoPoolChoice = false }()
+	so0, se0 := fileSize(stdoutFile), fileSize(stderrFile)
 	x := sched.Execute(prefix, 100000, []func(){body})
+	if so1 := fileSize(stdoutFile); so1 > so0 {
+		w.stdLeak += "stdout: " + readFrom(stdoutFile, so0)
+	}
+	if se1 := fileSize(stderrFile); se1 > se0 {
+		w.stdLeak += "stderr: " + readFrom(stderrFile, se0)
+	}
 	return x, w, st
 }
 
